@@ -379,8 +379,32 @@ class FakeSock:
     def fileno(self):
         return id(self) % 100000
 
+    def bind(self, addr):
+        with self.net.lock:
+            self.net.binds.append((int(self.af), addr))
+        self.bound = addr
+
+    def listen(self, *a):
+        self.listening = True
+        with self.net.lock:
+            self.net.listeners.append(self)
+
     def accept(self):
-        raise OSError('not a listening socket')
+        """a scripted client (net.clients: Server-like objects that speak first) connects to the listening socket"""
+        if not getattr(self, 'listening', False):
+            raise OSError('not a listening socket')
+        with self.net.lock:
+            if not self.net.clients:
+                raise BlockingIOError(11, 'no client is connecting')
+            peer, addr = self.net.clients.pop(0)
+        c = FakeSock(self.net, self.af)
+        c.conn = peer.new_conn(addr)
+        with self.net.lock:
+            self.net.accepted.append(addr)
+            self.net.open_socks.append(c)
+            self.net.cur_open += 1
+            self.net.max_open = max(self.net.max_open, self.net.cur_open)
+        return c, addr
 
 
 class FakeNet:
@@ -395,6 +419,9 @@ class FakeNet:
         self.max_recv_calls = 400000
         self.timeouts = 0
         self.gate = None
+        self.binds, self.listeners, self.accepted = [], [], []
+        self.clients = []            # [(Server-like peer, (ip, port))]: clients that will connect to a listening socket (client audits, -c)
+        self.select_calls = 0
         self.cur_open = 0
         self.max_open = 0
         self.lock = threading.Lock()
@@ -448,7 +475,21 @@ def patched(net, fake_time=True):
     import ssh_audit.kexdh as kd
     m = net.module()
     old = (ss.socket, dh.socket, dh.select, kd.random, dh.time)
+    old_ss_select = ss.select
     ss.socket = m
+    lsel = types.ModuleType('fakeselect_listen')
+
+    def lselect(r, w, x, t=None):
+        # listen_and_accept() waits on the file numbers of its listening sockets: one of them becomes readable when a scripted client is waiting
+        net.select_calls += 1
+        if net.select_calls > 20000:
+            raise HarnessHang('more than 20000 select() calls while waiting for a client')
+        if net.clients:
+            fds = [f for f in r if any(l.fileno() == f for l in net.listeners)]
+            return fds[:1], [], []
+        return [], [], []
+    lsel.select = lselect
+    ss.select = lsel
     dh.socket = m
     sel = types.ModuleType('fakeselect')
 
@@ -475,6 +516,7 @@ def patched(net, fake_time=True):
         yield
     finally:
         ss.socket, dh.socket, dh.select, kd.random, dh.time = old
+        ss.select = old_ss_select
 
 
 def reset_dbs():
